@@ -264,6 +264,13 @@ def standard_configs():
         nm = list(L7)
         out.append({'nprocs': nprocs, 'ext': shape, 'layouts': L7, 'dtype': 'float64',
                     'pairs': [(nm[i], nm[(i + 3) % 7], bool(i % 2)) for i in range(7)]})
+    # process grids with THREE directions (also with an extent 1 in front of or between the distributed ones): redistribution along the
+    # third direction, pairs of layouts that differ on two distributed positions (joined through a third layout only)
+    L5 = {'A': [0, 1, 2, 3], 'B': [0, 2, 1, 3], 'X': [0, 3, 2, 1], 'Y': [0, 2, 3, 1], 'Z': [0, 1, 3, 2]}
+    for shape, nprocs in [([4, 5, 4, 6], [2, 2, 2]), ([3, 4, 5, 6], [1, 2, 2]), ([5, 3, 4, 4], [2, 1, 2])]:
+        nm = list(L5)
+        out.append({'nprocs': nprocs, 'ext': shape, 'layouts': L5, 'dtype': 'int64',
+                    'pairs': [(a, b, (i + j) % 2 == 0) for i, a in enumerate(nm) for j, b in enumerate(nm) if a != b]})
     for shape, nprocs in [([5, 6, 7], [2, 3]), ([4, 4, 6], [1, 2]), ([6, 5, 4], [3, 1])]:
         names = list(L3)
         out.append({'nprocs': nprocs, 'ext': shape, 'layouts': L3, 'dtype': 'complex128',
